@@ -13,6 +13,9 @@ import (
 
 const (
 	s2kParamsZero = 32768
+	// maxIterations is the largest PBKDF2 iteration count accepted from string-to-key parameters (the limit MIT krb5 applies).
+	// The parameters come from the KDC: without a limit one reply can keep the client computing for hours.
+	maxIterations = 0x1000000
 )
 
 // DeriveRandom for key derivation as defined in RFC 8009
@@ -126,6 +129,9 @@ func S2KparamsToItertions(s2kparams string) (int, error) {
 		return s2kParamsZero, errors.New("Invalid s2kparams, cannot decode string to bytes")
 	}
 	i = binary.BigEndian.Uint32(b)
+	if i == 0 || i > maxIterations {
+		return s2kParamsZero, errors.New("Invalid s2kparams, iteration count is outside the supported range")
+	}
 	//buf := bytes.NewBuffer(b)
 	//err = binary.Read(buf, binary.BigEndian, &i)
 	if err != nil {
